@@ -310,6 +310,63 @@ def m5(rep):
     rep.floor("non-static declarations of generated names reachable in split mode", n, 2)
 
 
+def m8(rep):
+    """The C printer collects each declaration in a static text buffer (BufferOutput, write position BufferPos, -1 = not
+    collecting) so that a few library prototypes can be patched, then writes the buffer.  The function that opens the buffer
+    (`BufferPos = 0`) terminates and writes it after printing the declaration's parts.  That is only right while nothing it
+    calls closes the buffer: every function that stores a constant into BufferPos other than the opener is a foreign closer,
+    and if there is one, each use of the collected text by the opener (the terminator store BufferOutput[BufferPos], strcmp /
+    output of BufferOutput) must be under a `BufferPos >= 0` test -- otherwise a declaration is terminated at index -1 and its
+    collected prefix is written a second time (invalid C: redeclarations)."""
+    f = common.extract("ccode.c", all_trees=True)
+    consts = {}
+    for name, fn in f.funcs.items():
+        if "body" not in fn or not fn.get("file", "").endswith("ccode.c"):
+            continue
+        for x in walk(fn["body"]):
+            if x["k"] == "BinaryOperator" and x["op"] == "=":
+                l = strip(x["c"][0])
+                if l is not None and l["k"] == "DeclRefExpr" and l["n"] == "BufferPos" and const_value(x["c"][1]) is not None:
+                    consts.setdefault(name, []).append((const_value(x["c"][1]), x))
+    openers = sorted(n for n, vs in consts.items() if any(v >= 0 for v, _ in vs))
+    if len(openers) != 1:
+        raise AnalysisBroken("ccode.c: expected one function that opens the declaration buffer (BufferPos = 0), found %s" % openers)
+    owner = openers[0]
+    foreign = sorted(n for n, vs in consts.items() if n != owner and any(v < 0 for v, _ in vs))
+    fn = f.func(owner)
+    par = common.parents(fn["body"])
+    uses = []
+    for x in walk(fn["body"]):
+        if x["k"] == "ArraySubscriptExpr" and (strip(x["c"][0]) or {}).get("n") == "BufferOutput":
+            uses.append(x)
+        elif x["k"] == "CallExpr" and any((strip(a) or {}).get("n") == "BufferOutput" for a in x["c"][1:]):
+            uses.append(x)
+    n = 0
+    for u in uses:
+        n += 1
+        guarded = False
+        cur = u
+        while cur["id"] in par:
+            p_ = par[cur["id"]]
+            if p_["k"] == "IfStmt" and any(y is cur for y in walk(p_["c"][1])):
+                c = strip(p_["c"][0])
+                for y in walk(p_["c"][0]):
+                    if y["k"] == "BinaryOperator" and y["op"] in (">=", ">", "!=") and (strip(y["c"][0]) or {}).get("n") == "BufferPos":
+                        guarded = True
+            cur = p_
+        key = "decl-buffer-open-at-use:%s@%d" % (owner, n)
+        where = "ccode.c:%d (%s)" % (u["l"], owner)
+        if not foreign or guarded:
+            rep.ok("M8", key, nontrivial=bool(foreign))
+        else:
+            rep.violation("M8", "decl-buffer-open-at-use:%s" % owner, where,
+                          "%s uses the collected declaration text here assuming the buffer it opened is still open, but %s can "
+                          "close it (BufferPos = -1) while the declaration is being printed: the terminator is then stored at "
+                          "index -1 and the part collected before is written again after the part written directly -- the "
+                          "generated C declares the same names twice" % (owner, ", ".join(foreign)))
+    rep.floor("uses of the collected declaration text", n, 4)
+
+
 def run(tier, only=None):
     rep = common.Report("C16", tier, EXPLANATION)
     f = common.extract("genc.c", all_cfg=True)
@@ -361,6 +418,7 @@ def run(tier, only=None):
     m5(rep)
     m6(rep)
     m7(rep)
+    m8(rep)
     mx = max(ch for ch, _, _ in rows if ch is not None)
     if mx >= bound:
         rep.violation("M3", "table-chars", "genc.c (ccSpecCharIdTable)", "character %d indexes tables of %d elements" % (mx, bound))
